@@ -102,6 +102,7 @@
 */
 
 #include "d_string.h"
+#include "file.h"
 #include "zip.h"
 
 #include <dirent.h>
@@ -152,18 +153,15 @@ mz_bool unzip_archive_to_path(mz_zip_archive * pZip, const char * path) {
 		}
 	}
 
+	if (dir) {
+		closedir(dir);
+	}
+
 	dir = opendir(path);
 
 	if (dir) {
 		// Directory 'path' exists
-
-		// Remember current working directory
-		// Apparently PATH_MAX doesn't actually mean anything, so pick a big number
-		char cwd[4096 + 1];
-		getcwd(cwd, sizeof(cwd));
-
-		// Move into the desired directory
-		chdir(path);
+		closedir(dir);
 
 		int file_count = mz_zip_reader_get_num_files(pZip);
 
@@ -172,21 +170,25 @@ mz_bool unzip_archive_to_path(mz_zip_archive * pZip, const char * path) {
 		for (int i = 0; i < file_count; ++i) {
 			mz_zip_reader_file_stat(pZip, i, &pStat);
 
+			// Address each entry by its full path: the working directory belongs
+			// to the whole process (other threads may be writing elsewhere)
+			char * full = path_from_dir_base(path, pStat.m_filename);
+
 			if (pStat.m_is_directory) {
 				// Create the directory
-				mkdir(pStat.m_filename, 0755);
+				mkdir(full, 0755);
 			} else {
-				status = mz_zip_reader_extract_to_file(pZip, i, pStat.m_filename, 0);
+				status = mz_zip_reader_extract_to_file(pZip, i, full, 0);
 
 				if (!status) {
 					fprintf(stderr, "Error extracting file from zip archive.\n");
+					free(full);
 					return status;
 				}
 			}
-		}
 
-		// Return to prior working directory
-		chdir(cwd);
+			free(full);
+		}
 	}
 
 
